@@ -97,3 +97,72 @@ func ZZ_C01_Step() {
 		after+ue.ReservedQuota[rg] == q+reserved-cost*online)
 	vx.Assert("unrelated account untouched", zzBalance(zzSupi2, rg) == q2)
 }
+
+// zzTwoGroups sets up one subscriber with two rating groups A and B, each with
+// its own account and an arbitrary reserve-mode pre-state, and one request
+// reporting online usage for both groups.
+type zzTwo struct {
+	rg            [2]int32
+	q, reserved   [2]int64
+	used, request [2]int32
+	cost          int64
+}
+
+func zzTwoGroupsSetup(nonNegative bool) (*zzTwo, models.ChfConvergedChargingChargingDataRequest) {
+	zzSetup()
+	t := &zzTwo{}
+	t.cost = []int64{1, 333}[vx.Choice("cost2", 2)]
+	t.rg[0], t.rg[1] = vx.Int32("rgA"), vx.Int32("rgB")
+	vx.Assume(t.rg[0] != t.rg[1])
+	self := chf_context.GetSelf()
+	ue, err := self.NewCHFUe(zzSupi)
+	vx.Assert("subscriber context created", err == nil && ue != nil)
+	var entries []models.ChfConvergedChargingMultipleUnitUsage
+	for i := 0; i < 2; i++ {
+		l := "g" + string(rune('A'+i))
+		t.q[i] = vx.Int64(l + ".balance")
+		t.reserved[i] = vx.Int64(l + ".reserved")
+		if nonNegative {
+			vx.Assume(t.q[i] >= 0)
+			vx.Assume(t.reserved[i] >= 0)
+		} else {
+			vx.Assume(t.q[i] > -(1 << 40))
+			vx.Assume(t.reserved[i] > -(1 << 40))
+		}
+		vx.Assume(t.q[i] < 1<<40)
+		vx.Assume(t.reserved[i] < 1<<40)
+		zzAccount(zzSupi, t.rg[i], t.q[i], t.cost)
+		ue.RatingGroups = append(ue.RatingGroups, t.rg[i])
+		ue.RatingType[t.rg[i]] = charging_datatype.REQ_SUBTYPE_RESERVE
+		ue.ReservedQuota[t.rg[i]] = t.reserved[i]
+		t.used[i] = vx.Int32(l + ".used")
+		t.request[i] = vx.Int32(l + ".requested")
+		vx.Assume(t.used[i] >= 0)
+		vx.Assume(t.request[i] >= 0)
+		vx.Assume(int64(t.used[i])*t.cost < 1<<31)
+		vx.Assume(int64(t.request[i])*t.cost < 1<<31)
+		entries = append(entries, models.ChfConvergedChargingMultipleUnitUsage{RatingGroup: t.rg[i], UPFID: "upf",
+			RequestedUnit:     &models.RequestedUnit{TotalVolume: t.request[i]},
+			UsedUnitContainer: []models.ChfConvergedChargingUsedUnitContainer{{QuotaManagementIndicator: models.QuotaManagementIndicator_ONLINE_CHARGING, TotalVolume: t.used[i]}}})
+	}
+	req := models.ChfConvergedChargingChargingDataRequest{SubscriberIdentifier: zzSupi, MultipleUnitUsage: entries}
+	if vx.Choice("trigger", 2) == 1 {
+		req.Triggers = []models.ChfConvergedChargingTrigger{zzTrigger("trigger.kind")}
+	}
+	return t, req
+}
+
+// C01 with several rating groups in one request: conservation holds for each
+// group separately (usage reported for one group never moves another group's
+// money).
+//
+//gosx:property=C01 tier=quick unwind=40 timeout=30000
+func ZZ_C01_TwoGroups() {
+	t, req := zzTwoGroupsSetup(false)
+	sessionChargingReservation(req)
+	ue, _ := chf_context.GetSelf().ChfUeFindBySupi(zzSupi)
+	for i := 0; i < 2; i++ {
+		after := zzBalance(zzSupi, t.rg[i])
+		vx.Assert("credit conserved per rating group", after+ue.ReservedQuota[t.rg[i]] == t.q[i]+t.reserved[i]-t.cost*int64(t.used[i]))
+	}
+}
